@@ -668,3 +668,9 @@ func compareDisplay(t *simterm.Term, exp [][]expCell) string {
 	}
 	return ""
 }
+
+// diffNoLink is diff without the hyperlink comparison.
+func (e expStyle) diffNoLink(s simterm.Style) string {
+	s.LinkURI, s.LinkParams = e.uri, e.params
+	return e.diff(s)
+}
